@@ -209,10 +209,21 @@ pub fn check_c05(case: &HistoryCase, reps: usize, threads: usize, rep: &mut Repo
     }
 }
 
-/// child process for the across-processes clause: prints one hash per case
-pub fn c05_child_main(seed: u64, from: u64, count: u64) -> i32 {
+/// child process for the across-processes clause: prints "<index> <hash>" per case. `order` decides in
+/// which order the cases are executed (0 forward, 1 backward, 2 shuffled), so that state leaking from one
+/// call into the next (a cache, a memo, a counter) shows up as a difference between processes.
+pub fn c05_child_main(seed: u64, from: u64, count: u64, order: u64) -> i32 {
+    let mut idx: Vec<u64> = (0..count).collect();
+    match order {
+        1 => idx.reverse(),
+        2 => {
+            let mut r = Rng::new(seed ^ 0xABCD);
+            r.shuffle(&mut idx);
+        }
+        _ => {}
+    }
     let mut out = String::new();
-    for k in 0..count {
+    for k in idx {
         let case = collide_case(seed, "C05", from + k);
         let texts = case.texts();
         let mut r = Rng::new(fnv64(texts.concat().as_bytes()));
@@ -221,8 +232,7 @@ pub fn c05_child_main(seed: u64, from: u64, count: u64) -> i32 {
             Ok(s) => format!("{:016x}{:016x}", fnv64(s.as_bytes()), fnv64(format!("x{}", s).as_bytes())),
             Err(e) => format!("ERR{:016x}", fnv64(e.as_bytes())),
         };
-        out.push_str(&h);
-        out.push('\n');
+        out.push_str(&format!("{} {}\n", k, h));
     }
     print!("{}", out);
     0
@@ -259,26 +269,45 @@ pub fn run_c05(thorough: bool, seed: u64, shards: usize) -> (Report, String) {
     });
     rep.merge(sub);
     // processes: the first `np_cases` cases hashed by P fresh processes
-    let procs = if thorough { 8 } else { 3 };
+    let procs = if thorough { 8 } else { 4 };
     let np_cases: u64 = if thorough { 200_000 } else { 20_000 };
     let exe = std::env::current_exe().expect("exe");
     let kids: Vec<_> = (0..procs)
-        .filter_map(|_| {
-            Command::new(&exe)
-                .arg("c05-child")
-                .arg(seed.to_string())
-                .arg("0")
-                .arg(np_cases.to_string())
-                .stdout(Stdio::piped())
-                .stderr(Stdio::null())
-                .spawn()
-                .ok()
+        .filter_map(|p| {
+            let mut c = Command::new(&exe);
+            c.arg("c05-child").arg(seed.to_string()).arg("0").arg(np_cases.to_string()).arg((p % 3).to_string());
+            // different process environments: locale, time zone, working directory, logging, home
+            match p % 4 {
+                1 => {
+                    c.env("LANG", "tr_TR.UTF-8").env("LC_ALL", "tr_TR.UTF-8").env("TZ", "Asia/Tokyo").current_dir("/");
+                }
+                2 => {
+                    c.env("RUST_LOG", "trace").env("HOME", "/nonexistent").env("RUST_BACKTRACE", "1").current_dir("/tmp");
+                }
+                3 => {
+                    c.env_clear();
+                }
+                _ => {}
+            }
+            c.stdout(Stdio::piped()).stderr(Stdio::null()).spawn().ok()
         })
         .collect();
     let mut outputs: Vec<Vec<String>> = Vec::new();
     for k in kids {
         match k.wait_with_output() {
-            Ok(o) if o.status.success() => outputs.push(String::from_utf8_lossy(&o.stdout).lines().map(|l| l.to_string()).collect()),
+            Ok(o) if o.status.success() => {
+                let mut v: Vec<String> = vec![String::new(); np_cases as usize];
+                for l in String::from_utf8_lossy(&o.stdout).lines() {
+                    if let Some((i, h)) = l.split_once(' ') {
+                        if let Ok(i) = i.parse::<usize>() {
+                            if i < v.len() {
+                                v[i] = h.to_string();
+                            }
+                        }
+                    }
+                }
+                outputs.push(v)
+            }
             Ok(o) => rep.inconclusive(&format!("determinism child ended with {:?}", o.status)),
             Err(e) => rep.inconclusive(&format!("determinism child: {}", e)),
         }
@@ -293,7 +322,15 @@ pub fn run_c05(thorough: bool, seed: u64, shards: usize) -> (Report, String) {
                     let case = collide_case(seed, "C05", i as u64);
                     rep.violation(
                         "nondeterministic:across-processes",
-                        format!("case {}: process 0 rendered hash {:?}, process {} rendered {:?}", i, first, p, o.get(i)),
+                        format!(
+                            "case {}: process 0 (cases in forward order, default environment) rendered hash {:?}, process {} (order {}, environment variant {}) rendered {:?}",
+                            i,
+                            first,
+                            p,
+                            ["forward", "backward", "shuffled"][p % 3],
+                            p % 4,
+                            o.get(i)
+                        ),
                         case.to_json(),
                     );
                     break;
@@ -304,7 +341,7 @@ pub fn run_c05(thorough: bool, seed: u64, shards: usize) -> (Report, String) {
         rep.inconclusive("fewer than two determinism child processes completed");
     }
     let rule = format!(
-        "{} histories (three quarters from a collision profile: sibling names a-b/a_b/a.b/aB/Foo/foo..., attribute/child/text identifier clashes, repeated parents with empty occurrences; one quarter general), each parsed and rendered {} more times in the same thread (fresh RandomState per HashMap), every 8th also by {} threads (independent parse+render and concurrent rendering of one shared tree), and the first {} cases by {} fresh processes compared by 128-bit hash. A canary HashMap filled with the same child names records whether iteration orders actually varied; non-trivial = cases (>= 3 sibling names) where >= 2 canary orders were seen; distinct by rendered bytes.",
+        "{} histories (three quarters from a collision profile: sibling names a-b/a_b/a.b/aB/Foo/foo..., attribute/child/text identifier clashes, repeated parents with empty occurrences; one quarter general), each parsed and rendered {} more times in the same thread (fresh RandomState per HashMap), every 8th also by {} threads (independent parse+render and concurrent rendering of one shared tree), and the first {} cases by {} fresh processes compared by 128-bit hash — the processes execute the cases in different orders (forward, backward, shuffled: state leaking between calls would show) and under different environments (locale/time zone/cwd, RUST_LOG/HOME, empty environment). A canary HashMap filled with the same child names records whether iteration orders actually varied; non-trivial = cases (>= 3 sibling names) where >= 2 canary orders were seen; distinct by rendered bytes.",
         n, reps, threads, np_cases, procs
     );
     (rep, rule)
